@@ -151,6 +151,23 @@ fn check_transform_family(f: &gfref::Field, eng: &str, n: u32, delta: usize, len
     let mut checks = 0u64;
     // ---- fft: arbitrary coefficients, first trunc outputs
     let input = Buf::random(count, len64, &mut rng);
+    // further inputs for small sizes: all-but-one shard zero, all shards identical (data-dependent short cuts)
+    let mut more_inputs: Vec<Buf> = Vec::new();
+    if n <= 6 && n >= 1 {
+        let js: Vec<usize> = if size <= 8 { (0..size).collect() } else { vec![0, 1, size / 2 - 1, size / 2, size - 2, size - 1] };
+        for j in js {
+            let mut b = Buf::random(count, len64, &mut rng);
+            b.zero_shards(pos, pos + j);
+            b.zero_shards(pos + j + 1, pos + size);
+            more_inputs.push(b);
+        }
+        let mut b = Buf::random(count, len64, &mut rng);
+        for j in 1..size {
+            let first = b.shard(pos).to_vec();
+            b.shard_mut(pos + j).copy_from_slice(&first);
+        }
+        more_inputs.push(b);
+    }
     let mut slots: Vec<(usize, usize)> = SLOTS.iter().map(|(b, s)| (if *b == usize::MAX { len64 - 1 } else { *b }, *s)).collect();
     if len64 > 2 {
         // long shards: blocks in the middle and on both sides of the 4 KiB / 8 KiB marks as well
@@ -160,9 +177,13 @@ fn check_transform_family(f: &gfref::Field, eng: &str, n: u32, delta: usize, len
             }
         }
     }
+    let all_truncs = truncs;
+    for (ii, input) in std::iter::once(&input).chain(more_inputs.iter()).enumerate() {
+    // the extra inputs run on a thinned set of truncated sizes
+    let truncs: Vec<usize> = if ii == 0 { all_truncs.to_vec() } else { all_truncs.iter().copied().filter(|t| *t == size || *t == size / 2 + 1 || *t == 1 || size <= 8).collect() };
     let coeffs: Vec<Vec<u16>> = slots.iter().map(|(b, s)| (0..size).map(|j| input.sym(pos + j, *b, *s)).collect()).collect();
     let want: Vec<Vec<u16>> = coeffs.iter().map(|c| rows.iter().map(|row| dot(f, c, row)).collect()).collect();
-    for &trunc in truncs {
+    for &trunc in truncs.iter() {
         let mut buf = input.clone();
         if let Err(p) = guard(|| with_engine!(eng, E => transform::<E>(Dir::Fft, &mut buf, pos, size, trunc, delta))) {
             return Err(("no panic".into(), format!("PANIC: {p}")));
@@ -181,6 +202,7 @@ fn check_transform_family(f: &gfref::Field, eng: &str, n: u32, delta: usize, len
         if buf.shard(0) != input.shard(0) || buf.shard(count - 1) != input.shard(count - 1) {
             return Err((format!("fft(size=2^{n}, truncated_size={trunc}) leaves shards outside [pos,pos+size) alone"), "guard shard modified".into()));
         }
+    }
     }
     // ---- ifft: values with zero tail -> coefficients that evaluate back to the values
     for &trunc in truncs {
